@@ -14,7 +14,7 @@ DRAIN_OPS = {"d_next", "d_next_back", "d_len", "d_drop", "d_nth", "d_nth_back", 
 
 HIST_OP_PROPS = {
     "clear": set(), "swap_dimensions": set(), "reserve": set(), "reserve_exact": set(), "shrink_to_fit": set(),
-    "fill": {"C13"}, "swap": {"C13"}, "swap_rows": {"C13"}, "swap_cols": {"C13"}, "set": {"C02"},
+    "fill": {"C13"}, "swap": {"C13"}, "swap_rows": {"C13"}, "swap_cols": {"C13"}, "set": {"C02"}, "set_flat": {"C02"},
     "translate": {"C15"}, "flip_rows": {"C15"}, "flip_cols": {"C15"},
     "sort_by_row": {"C16"}, "sort_by_col": {"C17"}, "sort_by_row_key": {"C16"}, "sort_row_ord": {"C16"},
     "sort_by_col_key": {"C17"}, "sort_col_ord": {"C17"}, "clone_from_slice": {"C14"}, "clone_from_toodee": {"C14"},
